@@ -708,6 +708,22 @@ def design_run(pid, tier):
     if pid == "C06":
         # word counts of bitmaps saved word by word (saver and loader formulas, where they differ), for all lengths
         r["tlaps_obligations_proved"] = vlib.tlaps("LayoutProofs")
+    if pid in ("C06", "C08"):
+        # the three representations of the hash tables (load options 1..3) and the image they are saved to
+        body = "SPECIFICATION Spec\nCONSTANTS MaxCells = %d\nMaxOff = %d\nFixed = %s\nINVARIANT Inv\nCHECK_DEADLOCK FALSE\n"
+        ch = os.path.join(vlib.CACHE, "cfg", "hashcompact_%s_%s.cfg" % (pid, tier))
+        open(ch, "w").write(body % ((6, 6, "TRUE") if tier == "thorough" else (5, 5, "TRUE")))
+        hcm = vlib.tlc("HashCompact", ch, workers=4, timeout=1800, java_opts=["-Xmx6g"])
+        if hcm.rc != 0:
+            raise RuntimeError("HashCompact.tla failed: rc=%s violated=%s" % (hcm.rc, hcm.violated))
+        ch2 = os.path.join(vlib.CACHE, "cfg", "hashcompact_%s_orig.cfg" % pid)
+        open(ch2, "w").write(body % (4, 4, "FALSE"))
+        hc0 = vlib.tlc("HashCompact", ch2, workers=2, timeout=600)
+        if hc0.violated != "Inv":
+            raise RuntimeError("vacuity: HashCompact.tla no longer flags the original save of the compact representations")
+        r["distinct"] = (r.distinct or 0) + (hcm.distinct or 0)
+        r["generated"] = (r.generated or 0) + (hcm.generated or 0)
+        r["hashcompact_states"] = hcm.distinct
     if pid in XBW_MODEL_PIDS:
         # mechanism model of the XBW kind: double-rooted trie, node order, alpha / last / A arrays, subPathSearch,
         # getChildren / getParent / idToStr, breadth-first ID iterators; Emit prints the arrays per member set
